@@ -463,7 +463,7 @@ def rule_r2(chk, model):
     f = cm.func("Mixin.copy")
     chk.saw(cm, "Mixin.copy")
     ok = _returns_deepcopy_of_self(f)
-    chk.ob("C10-R2", "conveniences.copies.Mixin.copy", ok, "copy() is deepcopy(self)", cm.loc(f))
+    chk.ob("C10-R2", "conveniences.copies.Mixin.copy", ok, "copy() is deepcopy(self)", cm.loc(f), sure=True)
     # Series defines no __deepcopy__/__copy__/__reduce__ that could alias data
     custom = [n for n in ("__deepcopy__", "__copy__", "__reduce__", "__reduce_ex__", "__getstate__") if n in model.methods]
     chk.ob("C10-R2", "series.Series[no custom copy protocol]", not custom, f"custom copy hooks: {custom}" if custom else "deepcopy copies the data array", model.main.rel)
